@@ -330,7 +330,8 @@ def _batch_worker(args):
     """one process per batch of instances: TLC (invariants + edge dump) once, then the replay of each instance; plain data only.
     A batch in which TLC stops on a violation is re-run instance by instance."""
     b, batch, consts, invariants, edges, props, max_paths, sd, timeout, workers = args
-    g, res = model_check(b.module, [i for i, _ in batch], consts, invariants, edges, workers=workers, norm=b.norm, timeout=timeout)
+    g, res = model_check(b.module, [i for i, _ in batch], consts, invariants, edges, workers=workers, norm=b.norm, timeout=timeout,
+                         constraint=getattr(b, "constraint", None))
     bad = bool(res.violated) or any("Deadlock" in e for e in res.errors)
     if bad and len(batch) > 1:
         out = []
